@@ -525,6 +525,27 @@ pub fn run(tier: &str) -> i32 {
     let c = space_c(thorough);
     let n_c = c.len();
     progs.extend(c);
+    // large modules: the accessing helper is one of N functions the entry calls (63 / 64 / 65 / 128 / 256 / 300)
+    for n in [63usize, 64, 65, 128, 129, 256, 300] {
+        for reader_pos in ["first", "last"] {
+            let mut src = String::from("@group(0) @binding(0) var<uniform> wide_res: vec4<f32>;\n@group(0) @binding(1) var<uniform> wide_other: vec4<f32>;\n");
+            let reader = "fn reader() -> f32 { return wide_res.x; }\n";
+            if reader_pos == "first" {
+                src.push_str(reader);
+            }
+            for i in 0..n {
+                src.push_str(&format!("fn filler_{i}() -> f32 {{ return {i}.0; }}\n"));
+            }
+            if reader_pos == "last" {
+                src.push_str(reader);
+            }
+            let calls: String = (0..n).map(|i| format!("    acc += filler_{i}();\n")).collect();
+            src.push_str(&Stage::V.entry("vs_main", &indent("acc = wide_other.x;")));
+            src.push_str(&Stage::F.entry("fs_main", &format!("{calls}    acc += reader();\n")));
+            src.push_str(&Stage::C.entry("cs_main", &format!("    acc += reader();\n{calls}")));
+            progs.push(Prog { key: format!("wide|n={n}|reader={reader_pos}"), src, expect: vec![("wide_res".into(), 0, 0, ShaderStages::FRAGMENT | ShaderStages::COMPUTE), ("wide_other".into(), 0, 1, ShaderStages::VERTEX)], steps: n as u64 });
+        }
+    }
     // identifier styles of the resource variables (camelCase, UPPER): every 16th program in quick
     {
         let n0 = progs.len();
